@@ -424,7 +424,7 @@ fn closing_phase(plan: &Plan, hist: &mut History, exec: &mut Executor, clock: u6
         };
         let seg = tcp(&f, &[], &fk.src, &fk.dst);
         extra.push(frame_ip(&plan.cfg.mac, &smac, &fk.src, &fk.dst, P_TCP, &seg, 64));
-        if extra.len() >= 64 {
+        if extra.len() >= 400 {
             break;
         }
     }
